@@ -34,8 +34,20 @@ func concurrentBattery(c *lib.Ctx) {
 	os.WriteFile(filepath.Join(root, "secret", "small.txt"), []byte("small protected file "+token+"\n"), 0o644)
 	os.WriteFile(filepath.Join(root, "public", "big.html"), big(publicUnit, 6<<20), 0o644)
 	os.WriteFile(filepath.Join(root, "public", "small.html"), []byte("public page\n"), 0o644)
+	// Markdown documents with front matter (rendered by the markdown directive)
+	front := func(title string) string {
+		var b strings.Builder
+		b.WriteString("---\ntitle: " + title + "\n")
+		for i := 0; i < 40; i++ {
+			fmt.Fprintf(&b, "key%d: value %d of %s\n", i, i, title)
+		}
+		b.WriteString("---\n")
+		return b.String()
+	}
+	os.WriteFile(filepath.Join(root, "secret", "doc.md"), []byte(front("protected")+"# Protected\n\n"+strings.Repeat("protected paragraph "+token+" text\n\n", 40)), 0o644)
+	os.WriteFile(filepath.Join(root, "public", "doc.md"), []byte(front("public")+"# Public\n\n"+strings.Repeat("public paragraph, nothing to see\n\n", 40)), 0o644)
 	port := lib.FreePort()
-	cf := fmt.Sprintf("http://conc.test:%d {\n\troot %s\n\tbasicauth /secret vuser vpass-plain\n\ttemplates\n}\n", port, root)
+	cf := fmt.Sprintf("http://conc.test:%d {\n\troot %s\n\tbasicauth /secret vuser vpass-plain\n\ttemplates\n\tmarkdown /\n}\n", port, root)
 	c.Journal("C03 concurrent battery\n%s", cf)
 	inst, err := lib.Start(cf, filepath.Join(dir, "Casketfile"))
 	if err != nil {
@@ -144,6 +156,55 @@ func concurrentBattery(c *lib.Ctx) {
 		wg.Wait()
 	}
 	c.Nontrivial("concurrent-buffer")
+
+	// ---- C: anonymous requests for a public Markdown document overlapping
+	// authenticated requests for a protected one (the content handler behind
+	// basicauth renders both; whatever it keeps between requests must not mix them)
+	var stopC int32
+	var authDocs, anonDocs int64
+	var wgA, wgB sync.WaitGroup
+	for g := 0; g < 4; g++ {
+		wgA.Add(1)
+		go func() {
+			defer wgA.Done()
+			k := &lib.Conn{Addr: addr, Timeout: 60 * time.Second}
+			defer k.Close()
+			for atomic.LoadInt32(&stopC) == 0 {
+				r := k.Get("GET", "/secret/doc.md", host, good)
+				if r.Err == nil && r.Status == 200 && bytes.Contains(r.Body, []byte(token)) {
+					atomic.AddInt64(&authDocs, 1)
+				}
+			}
+		}()
+	}
+	itersC := c.Pick(1500, 15000)
+	for g := 0; g < 4; g++ {
+		wgB.Add(1)
+		go func() {
+			defer wgB.Done()
+			k := &lib.Conn{Addr: addr, Timeout: 60 * time.Second}
+			defer k.Close()
+			for i := 0; i < itersC; i++ {
+				r := k.Get("GET", "/public/doc.md", host)
+				if r.Err != nil {
+					continue
+				}
+				c.Eval(1)
+				atomic.AddInt64(&anonDocs, 1)
+				if j := bytes.Index(r.Body, []byte(token)); j >= 0 {
+					c.Violation("C03/disclosed/basicauth/concurrent-markdown", fmt.Sprintf("the response (%d) to an anonymous request for a public Markdown document contains the token of a protected document that authenticated clients were fetching at the same time", r.Status),
+						map[string]interface{}{"casketfile": cf, "request": "GET /public/doc.md (no credentials)", "status": r.Status, "around": string(r.Body[j:minInt(j+120, len(r.Body))])})
+					return
+				}
+			}
+		}()
+	}
+	wgB.Wait()
+	atomic.StoreInt32(&stopC, 1)
+	wgA.Wait()
+	c.Count("concurrent_anonymous_markdown_documents", anonDocs)
+	c.Count("concurrent_authenticated_markdown_documents", authDocs)
+	c.Nontrivial("concurrent-markdown")
 }
 
 func minInt(a, b int) int {
